@@ -85,7 +85,7 @@ class Replayer:
             env.update(extra_env)
         try:
             p = subprocess.run([b, "-test.run", "^TestVerifReplay$", "-test.count=1", "-test.timeout", "%ds" % timeout],
-                               cwd=os.path.join(REPO, pkgdir), env=env, capture_output=True, text=True, timeout=timeout + 30)
+                               cwd=(os.path.join(REPO, pkgdir) if os.path.isdir(os.path.join(REPO, pkgdir)) else REPO), env=env, capture_output=True, text=True, timeout=timeout + 30)
             raw = p.stdout + p.stderr
         except subprocess.TimeoutExpired as e:
             return {"end": "timeout", "label": "", "observed": [], "raw": str(e)}
